@@ -26,7 +26,7 @@ def anc_closure(edges, classes):
     return anc
 
 
-def scenario(idx, classes, edges, statements, methods, defs):
+def scenario(idx, classes, edges, statements, methods, defs, abstract=()):
     """statements: list of lists of classes (each one register_classes(...)); methods: [(m, vp)];
     defs: [(m, d, vp)].  Precondition (C08): every direct edge has both ends in some statement."""
     anc = anc_closure(edges, classes)
@@ -38,7 +38,10 @@ def scenario(idx, classes, edges, statements, methods, defs):
     o = ["namespace %s {" % ns]
     for c in classes:   # classes are numbered so that bases come first
         bases = ", ".join("%spublic K%d" % (virt, b) for b in direct[c])
-        o.append("struct K%d%s { int tag%d = %d; virtual ~K%d() {} };" % (c, (" : " + bases) if bases else "", c, c, c))
+        # abstract classes are really abstract (is_abstract comes from std::is_abstract_v); every class says what it
+        # does about the pure function, so that the concrete ones are instantiable whatever their bases
+        pure = "virtual void pure%d() = 0;" % idx if c in abstract else "virtual void pure%d() {}" % idx
+        o.append("struct K%d%s { int tag%d = %d; virtual ~K%d() {} %s };" % (c, (" : " + bases) if bases else "", c, c, c, pure))
     for st in statements:
         o.append("register_classes(%s);" % ", ".join("K%d" % c for c in st))
     for m, vp in methods:
@@ -53,8 +56,8 @@ def scenario(idx, classes, edges, statements, methods, defs):
         for c in st:
             r += 1
             listed = [b for b in st if b in anc[c]]     # what inheritance_map keeps: the classes of the statement that are bases of c (itself included)
-            o.append('    std::printf("{\\"e\\":\\"class\\",\\"p\\":0,\\"r\\":%d,\\"c\\":%d,\\"bases\\":%s,\\"abs\\":false}\\n");' %
-                     (idx * 1000 + r, c, str(listed).replace(" ", "")))
+            o.append('    std::printf("{\\"e\\":\\"class\\",\\"p\\":0,\\"r\\":%d,\\"c\\":%d,\\"bases\\":%s,\\"abs\\":%s}\\n");' %
+                     (idx * 1000 + r, c, str(listed).replace(" ", ""), "true" if c in abstract else "false"))
     for m, vp in methods:
         o.append('    std::printf("{\\"e\\":\\"method\\",\\"p\\":0,\\"m\\":%d,\\"shape\\":\\"%s\\",\\"vp\\":%s}\\n");' %
                  (idx * 100 + m, "V" * len(vp), str(list(vp)).replace(" ", "")))
@@ -63,27 +66,31 @@ def scenario(idx, classes, edges, statements, methods, defs):
                  (idx * 100 + m, d, str(list(vp)).replace(" ", "")))
     o.append("}")
     o.append("void tables() {")
-    for c in classes:
+    concrete = [c for c in classes if c not in abstract]
+    for c in concrete:
         o.append("    K%d o%d;" % (c, c))
+    o.append("    const std::type_info* tis[] = {%s};" % ", ".join("&typeid(K%d)" % c for c in classes))
+    o.append("    const int nums[] = {%s};" % ", ".join(str(c) for c in classes))
+    o.append("    auto cls = [&](yorel::yomm2::type_id id) { for (std::size_t i = 0; i < sizeof(nums) / sizeof(int); ++i) if (reinterpret_cast<yorel::yomm2::type_id>(tis[i]) == id) return nums[i]; return -1; };")
     for m, vp in methods:
         o.append('    { std::string rows;')
-        cov = [[x for x in classes if v in anc[x]] for v in vp]
+        cov = [[x for x in concrete if v in anc[x]] for v in vp]
         import itertools
         for t in itertools.product(*cov):
             args = ", ".join("static_cast<K%d&>(o%d)" % (v, x) for v, x in zip(vp, t))
-            o.append('      { int o = call([&] { return m%d(%s); }); rows += (rows.empty() ? "" : ",") + std::string("[%s,") + std::to_string(o) + "]"; }' %
+            o.append('      { g_err = ErrRec(); int o = call([&] { return m%d(%s); }); rows += (rows.empty() ? "" : ",") + std::string("[%s,") + std::to_string(o) + "," + (o >= 0 ? std::string("[]") : err_json(cls)) + "]"; }' %
                      (m, args, str(list(t)).replace(" ", "")))
-        o.append('      std::printf("{\\"e\\":\\"table\\",\\"p\\":0,\\"m\\":%d,\\"shape\\":\\"%s\\",\\"rows\\":[%%s]}\\n", rows.c_str()); }' %
+        o.append('      std::printf("{\\"e\\":\\"ctable\\",\\"p\\":0,\\"m\\":%d,\\"shape\\":\\"%s\\",\\"concrete\\":true,\\"rows\\":[%%s]}\\n", rows.c_str()); }' %
                  (idx * 100 + m, "V" * len(vp)))
     # what next refers to inside every definition: call the method with objects of exactly the definition's
     # classes (the definition itself is selected) and let it forward to next
     for m, vp in methods:
-        mdefs = [(d, dvp) for mm, d, dvp in defs if mm == m]
+        mdefs = [(d, dvp) for mm, d, dvp in defs if mm == m and all(x not in abstract for x in dvp)]
         o.append('    { std::string rows;')
         for d, dvp in mdefs:
             args = ", ".join("static_cast<K%d&>(o%d)" % (v, x) for v, x in zip(vp, dvp))
             o.append('      { g_via_next = true; int o = call([&] { return m%d(%s); }); g_via_next = false; rows += (rows.empty() ? "" : ",") + std::string("[%d,") + std::to_string(o) + "," + std::to_string(o) + "]"; }' % (m, args, d))
-        o.append('      std::printf("{\\"e\\":\\"next\\",\\"p\\":0,\\"m\\":%d,\\"rows\\":[%%s]}\\n", rows.c_str()); }' % (idx * 100 + m))
+        o.append('      std::printf("{\\"e\\":\\"next\\",\\"p\\":0,\\"m\\":%d,\\"concrete\\":true,\\"rows\\":[%%s]}\\n", rows.c_str()); }' % (idx * 100 + m))
     o.append("}")
     o.append("} // namespace")
     return "\n".join(o)
@@ -91,10 +98,22 @@ def scenario(idx, classes, edges, statements, methods, defs):
 
 COMMON = r'''
 #include <yorel/yomm2/keywords.hpp>
+#include <string>
 static bool g_via_next = false;
+struct ErrRec { int status = 0; std::size_t arity = 0; yorel::yomm2::type_id types[16] = {}; };
+static ErrRec g_err;
 template<class F> static int call(F f) {
     try { return f(); }
-    catch (const yorel::yomm2::resolution_error& e) { return e.status == yorel::yomm2::resolution_error::no_definition ? -1 : -2; }
+    catch (const yorel::yomm2::resolution_error& e) {
+        g_err.status = (int)e.status; g_err.arity = e.arity;
+        for (int i = 0; i < 16; ++i) g_err.types[i] = e.types[i];
+        return e.status == yorel::yomm2::resolution_error::no_definition ? -1 : -2;
+    }
+}
+template<class C> static std::string err_json(C cls) {
+    std::string s = "[" + std::to_string(g_err.status) + "," + std::to_string(g_err.arity) + ",[";
+    for (std::size_t i = 0; i < g_err.arity && i < 16; ++i) s += (i ? "," : "") + std::to_string(cls(g_err.types[i]));
+    return s + "]]";
 }
 '''
 
@@ -107,8 +126,8 @@ def program(name, scenarios):
         o.append(scenario(*sc))
     o.append("int main() {")
     o.append('    std::printf("{\\"e\\":\\"reset\\",\\"script\\":\\"%s\\",\\"bindings\\":[\\"gen\\"]}\\n");' % name)
-    o.append("    yorel::yomm2::default_policy::error = [](const yorel::yomm2::error_type& ev) {")
-    o.append("        if (auto e = std::get_if<yorel::yomm2::resolution_error>(&ev)) throw *e; };")
+    o.append("    yorel::yomm2::set_error_handler([](const yorel::yomm2::error_type& ev) {")
+    o.append("        if (auto e = std::get_if<yorel::yomm2::resolution_error>(&ev)) throw *e; });")
     for sc in scenarios:
         o.append("    g%d::run();" % sc[0])
     o.append("    auto comp = yorel::yomm2::update();")
